@@ -96,6 +96,25 @@ def h_entries_float(eng, names):
         eng.prove(abs(Fraction(f) / want - 1) <= Fraction(1, 10**14), f"float-get_root_units:{name}")
         if sym is not None:
             eng.prove(format(ureg.Unit(name), "~") == sym, f"float-symbol:{name}")
+    import numpy as np
+
+    for name, sc, off, sym in stdtable.temperatures():
+        for t in (0.0, 100.0, -40.0, 451.0, 25, 212):
+            want = Fraction(t) * sc + off
+            for form in ("ito_base_units", "ito_root_units", "to_base_units"):
+                qi = ureg.Quantity(t, name)
+                r_ = qi.to_base_units() if form == "to_base_units" else (getattr(qi, form)() or qi)
+                eng.prove(abs(Fraction(float(r_.magnitude)) - want) <= Fraction(1, 10**10) and str(r_.units) == "kelvin", f"float-temperature-{form}:{name}:{t}")
+    # integer arrays converted in place: refused, or the table's values -- never truncated
+    for unit, dst, k in (("yard", "meter", Fraction(9144, 10000)), ("pound", "kilogram", Fraction(45359237, 100000000)), ("gallon", "meter**3", Fraction(3785411784, 10**12)), ("inch", "centimeter", Fraction(254, 100))):
+        data = np.array([1, 2, 3, 10, 250])
+        q = ureg.Quantity(data.copy(), unit)
+        try:
+            q.ito(dst)
+        except Exception:  # noqa: BLE001
+            eng.prove(list(q.magnitude) == list(data) and q.units == ureg.Unit(unit), f"float-int-array-in-place:{unit}:refused-and-untouched")
+        else:
+            eng.prove(all(abs(Fraction(float(g)) / (Fraction(int(d)) * k) - 1) <= Fraction(1, 10**12) for g, d in zip(q.magnitude, data)), f"float-int-array-in-place:{unit}:values-of-the-table")
     for name, sc, off, sym in stdtable.temperatures():
         for t in (0.0, 100.0, -40.0, 451.0):
             got = ureg.Quantity(t, name).to("kelvin").magnitude
@@ -134,6 +153,10 @@ def h_temperatures(eng):
         x = eng.real(f"x_{name}")
         k = ureg.Quantity(x, name).to("kelvin")
         eng.prove(Eq(k.magnitude, s * x + o), f"temperature:{name}")
+        for form in ("ito_base_units", "ito_root_units", "ito"):
+            qi = ureg.Quantity(x, name)
+            qi.ito("kelvin") if form == "ito" else getattr(qi, form)()
+            eng.prove(Eq(qi.magnitude, s * x + o) and str(qi.units) == "kelvin", f"temperature-{form}:{name}")
         back = ureg.Quantity(x, "kelvin").to(name)
         eng.prove(Eq(back.magnitude, (x - o) / s), f"temperature-from-kelvin:{name}")
         eng.prove(ureg.get_symbol(name) == sym, f"symbol:{name}")
